@@ -167,6 +167,15 @@ impl Config {
     }
 }
 
+// Verification hook: public wrapper for the crate-private parser, compiled only
+// with `--cfg pytest_language_server_verif`.
+#[cfg(pytest_language_server_verif)]
+impl Config {
+    pub fn verif_parse(content: &str, path: &Path) -> Self {
+        Self::parse(content, path)
+    }
+}
+
 #[cfg(test)]
 mod tests {
     use super::*;
